@@ -282,3 +282,29 @@ def valid_soup_file(rng):
         lines.append("DEMANDA, ACS, %s" % val())
     rng.shuffle(lines)
     return "\n".join(lines) + "\n"
+
+
+def dhw_shared_id_file(rng):
+    """a valid file around one DHW system id that carries every kind of component (consumption of several carriers,
+    production, output, auxiliary), in random order: the DHW indicator walks all of them with kind-specific accessors"""
+    n = rng.choice([1, 2, 12])
+    val = lambda: ", ".join(gen.fmt(gen.dy(rng, 64, 64 * 100)) for _ in range(n))
+    N = rng.choice([0, 1, 5])
+    M = rng.choice([N, N, 9])
+    lines = ["%d, CONSUMO, ACS, %s, %s" % (N, rng.choice(["BIOMASA", "BIOMASADENSIFICADA"]), val())]
+    if rng.random() < 0.8:
+        lines.append("%d, CONSUMO, ACS, %s, %s" % (M, rng.choice(["GASNATURAL", "GASOLEO", "ELECTRICIDAD", "RED1", "EAMBIENTE"]), val()))
+    if rng.random() < 0.8:
+        lines.append("%d, SALIDA, ACS, %s" % (N, val()))
+    if rng.random() < 0.7:
+        lines.append("%d, PRODUCCION, %s, %s" % (N, rng.choice(["EL_INSITU", "EL_COGEN", "TERMOSOLAR", "EAMBIENTE"]), val()))
+    if rng.random() < 0.4:
+        lines.append("%d, AUX, %s" % (N, val()))
+    if rng.random() < 0.5:
+        lines.append("%d, CONSUMO, %s, %s, %s" % (N, rng.choice(["CAL", "ILU", "NEPB", "COGEN"]), rng.choice(["ELECTRICIDAD", "BIOMASA", "GASNATURAL"]), val()))
+    if rng.random() < 0.4:
+        lines.append("%d, SALIDA, CAL, %s" % (N, val()))
+    if rng.random() < 0.9:
+        lines.append("DEMANDA, ACS, %s" % val())
+    rng.shuffle(lines)
+    return "\n".join(lines) + "\n"
